@@ -2,7 +2,7 @@
    The theorems over the table regenerated from xreflect/cti_basic_method.go are in PropsGen.v
    (compiled on every run after the translator). *)
 From Coq Require Import ZArith List Bool.
-From Verif Require Import Common.GoInt Common.GoStr GoLite.Syntax GoLite.Sem GoLite.Templates C34.Model C34.Proof.
+From Verif Require Import Common.GoInt Common.GoStr GoLite.Syntax GoLite.Sem GoLite.Templates C34.Model C34.Proof C34.ContModel C34.ContProof.
 Import ListNotations.
 Open Scope Z_scope.
 
@@ -50,3 +50,48 @@ Example C34_example_denote :
   denote unit ubin ucmp uun uconv upart ubits 0 [] (closure_of_shape GInt16 ShCmp) [VInt GInt16 (-3); VInt GInt16 9] []
   = Ok ([VInt GInt (-1)], []).
 Proof. reflexivity. Qed.
+
+(* ---- container methods of xreflect/cti_method.go on slices (model ContModel.v, tied to the code by the
+   correspondence run on the implementation's own reflect.Values) ---- *)
+
+(* x.Slice3(lo, hi, max) succeeds exactly on Go's index range 0 <= lo <= hi <= max <= cap(x) and is Go's
+   x[lo:hi:max]: same array, offset +lo, length hi-lo, CAPACITY max-lo; otherwise it panics *)
+Theorem C34_slice3_is_go_slice3 : forall s lo hi max,
+  (in_range3 s lo hi max -> exists r, cti_slice3 s lo hi max = COk r /\ go_slice3 s lo hi max r)
+  /\ (~ in_range3 s lo hi max -> cti_slice3 s lo hi max = CPanic).
+Proof. exact cti_slice3_spec. Qed.
+Print Assumptions C34_slice3_is_go_slice3.
+
+Theorem C34_slice_is_go_slice : forall s lo hi,
+  (in_range2 s lo hi -> exists r, cti_slice s lo hi = COk r /\ go_slice s lo hi r)
+  /\ (~ in_range2 s lo hi -> cti_slice s lo hi = CPanic).
+Proof. exact cti_slice_spec. Qed.
+Print Assumptions C34_slice_is_go_slice.
+
+(* what Len() and Cap() report on the result of Slice3 *)
+Theorem C34_slice3_len_cap : forall s lo hi max r,
+  cti_slice3 s lo hi max = COk r -> cti_len r = hi - lo /\ cti_cap r = max - lo /\ 0 <= cti_len r <= cti_cap r.
+Proof. exact cti_slice3_len_cap. Qed.
+Print Assumptions C34_slice3_len_cap.
+
+(* the purpose of the third index: the result can reach (by re-slicing) exactly the elements [lo, max) of x *)
+Theorem C34_slice3_reach : forall s lo hi max r,
+  cti_slice3 s lo hi max = COk r -> reach_lo r = d_off s + lo /\ reach_hi r = d_off s + max /\ reach_hi r <= reach_hi s.
+Proof. exact cti_slice3_reach. Qed.
+Print Assumptions C34_slice3_reach.
+
+(* ... and Append on it writes into x only below index max: in place iff hi-lo+n <= max-lo, else a new array *)
+Theorem C34_append_after_slice3 : forall s lo hi max r n, 0 <= n ->
+  cti_slice3 s lo hi max = COk r ->
+  match cti_append r n with
+  | AAlias q => hi - lo + n <= max - lo /\ d_off q = d_off s + lo /\ d_off q + d_len q <= d_off s + max /\ d_cap q = max - lo
+  | AFresh m => max - lo < hi - lo + n /\ m = hi - lo + n
+  end.
+Proof. exact append_after_slice3. Qed.
+Print Assumptions C34_append_after_slice3.
+
+Example C34_example_slice3 :
+  cti_slice3 (mkD 0 8 8) 2 5 7 = COk (mkD 2 3 5)
+  /\ cti_append (mkD 2 3 5) 2 = AAlias (mkD 2 5 5) /\ cti_append (mkD 2 3 5) 3 = AFresh 6
+  /\ cti_slice3 (mkD 0 8 8) 2 5 9 = CPanic /\ cti_slice (mkD 2 3 5) 0 5 = COk (mkD 2 5 5).
+Proof. vm_compute. repeat split. Qed.
